@@ -343,13 +343,13 @@ theorem statAudio_ok (st : Stat) (m : Msg) : Total (statAudio st m) := by
   simp only [audioCodecId_eq, isAacSeqHeader_eq, GoM.ok_bind, GoM.pure_eq]
   tot
 
-theorem parseSps_np (b : Bytes) : NoPanic (Sps.parseSps b) := by
+theorem parseSps_np (b : Bytes) : NoPanicB (Sps.parseSps b) := by
   unfold Sps.parseSps Sps.recoverErr
-  split <;> simp_all [NoPanic, isPanic]
+  split <;> simp_all [NoPanicB, isPanic]
 
-theorem hevcParseSps_np (b : Bytes) (c : HevcPs.Context) : NoPanic (HevcPs.parseSps b c) := by
+theorem hevcParseSps_np (b : Bytes) (c : HevcPs.Context) : NoPanicB (HevcPs.parseSps b c) := by
   unfold HevcPs.parseSps HevcPs.recoverErr
-  split <;> simp_all [NoPanic, isPanic]
+  split <;> simp_all [NoPanicB, isPanic]
 
 theorem statDimsAvc_ok (st : Stat) (m : Msg) : Total (statDimsAvc st m) := by
   unfold statDimsAvc
@@ -366,7 +366,7 @@ theorem statDimsAvc_ok (st : Stat) (m : Msg) : Total (statDimsAvc st m) := by
 
 theorem statDimsHevc_ok (st : Stat) (m : Msg) (enh : Bool) : Total (statDimsHevc st m enh) := by
   unfold statDimsHevc
-  have h1 : NoPanic (if enh = true then SeqHeader.hevcParseEnhanced m.payload else SeqHeader.hevcParse m.payload) := by
+  have h1 : NoPanicB (if enh = true then SeqHeader.hevcParseEnhanced m.payload else SeqHeader.hevcParse m.payload) := by
     split
     · exact SeqHeader.hevcParseEnhanced_np _
     · exact SeqHeader.hevcParse_np _
